@@ -17,7 +17,7 @@ TRANSPARENT = (
     "std::pin::Pin::<Ptr>::new_unchecked", "tracing::Instrument::instrument",
     "std::future::IntoFuture::into_future", "std::iter::IntoIterator::into_iter",
     "std::slice::<impl [T]>::iter", "std::slice::<impl [T]>::to_vec", "std::vec::Vec::<T, A>::as_slice",
-    "std::string::String::as_str", "std::convert::identity",
+    "std::string::String::as_str", "std::convert::identity", "std::hint::must_use",
     "std::collections::HashMap::<K, V, S, A>::values", "std::collections::HashMap::<K, V, S, A>::values_mut",
 )
 
@@ -1325,3 +1325,152 @@ def reachable_feasible(fn, start, removed_edges=(), removed_blocks=(), max_state
                     continue
                 work.append((s, know))
     return out
+
+
+# ------------------------------------------------------------------------------------ TABULATE: region paths + finite-domain evaluation
+
+def region_paths(fn, conds, res, start, stop_blocks, cap=5000):
+    """acyclic paths from `start` until a block in stop_blocks or a return; each path =
+    (facts, events, end_block) where events are the resolved call expressions met on the way."""
+    out = []
+    rets = set(returns(fn))
+
+    class P(tuple):
+        """(facts, events, end_block) with .blocks = the blocks walked"""
+        blocks = ()
+
+    def emit(facts, ev, end, blocks):
+        p = P((facts, ev, end))
+        p.blocks = tuple(blocks)
+        out.append(p)
+
+    def dfs(b, facts, events, seen, blocks):
+        if len(out) >= cap:
+            raise AnchorLimit("too many paths in region")
+        t = fn.term(b)
+        ev = events
+        if t["k"] in ("call",):
+            ev = events + [(b, res.call_expr(t, b))]
+        if b in rets:
+            emit(facts, ev, b, blocks)
+            return
+        nxt = fn.succs(b)
+        if not nxt:
+            emit(facts, ev, b, blocks)
+            return
+        for s in nxt:
+            f2 = facts + conds.edge_facts(b, s)
+            if s in stop_blocks:
+                emit(f2, ev, s, blocks)
+            elif s in seen:
+                continue
+            else:
+                dfs(s, f2, ev, seen | {s}, blocks + [s])
+
+    dfs(start, [], [], {start}, [start])
+    return out
+
+
+class AnchorLimit(Exception):
+    pass
+
+
+class Unevaluable(Exception):
+    pass
+
+
+def ev(e, env):
+    """evaluate an expression over a finite-domain environment {path_str: value}; raises
+    Unevaluable for anything that is not a comparison/arithmetic over environment paths and constants."""
+    e = peel_refs(e)
+    k = e[0]
+    ps = path_str(e)
+    if ps is not None and ps in env:
+        return env[ps]
+    if k == "const":
+        if e[2] is None:
+            raise Unevaluable(show(e))
+        return e[2]
+    if k == "cast":
+        v = ev(e[1], env)
+        return int(v) if isinstance(v, bool) else v
+    if k == "field" and e[2] == "0" and peel_refs(e[1])[0] == "bin" and peel_refs(e[1])[1].endswith("WithOverflow"):
+        return ev(peel_refs(e[1]), env)
+    if k == "un" and e[1] == "Not":
+        v = ev(e[2], env)
+        return (not v) if isinstance(v, bool) else (~v & 0xFF)
+    if k == "bin":
+        op = e[1].replace("WithOverflow", "").replace("Unchecked", "")
+        a, b = ev(e[2], env), ev(e[3], env)
+        if op == "Eq":
+            return a == b
+        if op == "Ne":
+            return a != b
+        if op == "Lt":
+            return a < b
+        if op == "Le":
+            return a <= b
+        if op == "Gt":
+            return a > b
+        if op == "Ge":
+            return a >= b
+        if op == "Add":
+            return a + b
+        if op == "Sub":
+            return a - b
+        if op == "Mul":
+            return a * b
+        if op == "Div":
+            return a // b
+        if op == "Rem":
+            return a % b
+        if op == "BitAnd":
+            return a & b
+        if op == "BitOr":
+            return a | b
+    if k == "call" and e[2]:
+        n = e[1]
+        if n.endswith("char>::is_whitespace"):
+            return chr(ev(e[2][0], env)).isspace()
+        if n.endswith("char>::is_ascii"):
+            return ev(e[2][0], env) < 128
+        if n.endswith("char>::is_ascii_digit"):
+            return 48 <= ev(e[2][0], env) <= 57
+        if (e[4] or "").endswith("PartialEq::eq") and len(e[2]) == 2:
+            return ev(e[2][0], env) == ev(e[2][1], env)
+        if (e[4] or "").endswith("PartialEq::ne") and len(e[2]) == 2:
+            return ev(e[2][0], env) != ev(e[2][1], env)
+    raise Unevaluable(show(e)[:80])
+
+
+def fact_holds(fc, env, variants=None):
+    """truth of one edge fact under env; variant facts use env['<variant>'] (the state's name)."""
+    k = fc[0]
+    if k == "cmp":
+        a, b = ev(fc[2], env), ev(fc[3], env)
+        return {"Eq": a == b, "Ne": a != b, "Lt": a < b, "Le": a <= b, "Gt": a > b, "Ge": a >= b}[fc[1]]
+    if k == "inteq":
+        return ev(fc[1], env) == fc[2]
+    if k == "intne":
+        return ev(fc[1], env) != fc[2]
+    if k in ("is", "isnot") and variants is not None and fc[1] in variants:
+        return (env["<variant>"] == fc[1]) == (k == "is")
+    if k == "ltruth":
+        key = "local%d" % fc[1]
+        if key in env:
+            return env[key] == fc[2]
+        return None
+    if k == "truth":
+        try:
+            return ev(fc[1], env) == fc[2]
+        except Unevaluable:
+            return None
+    if k == "call":
+        try:
+            return ev(("call", fc[1], fc[2], None, fc[1]), env) == fc[3]
+        except Unevaluable:
+            return None
+    if k == "anyof":
+        rs = [all(x for x in (fact_holds(f, env, variants) for f in alt) if x is not None) for alt in fc[1]]
+        return any(rs)
+    return None
